@@ -46,6 +46,28 @@ func runC19(c *Ctx) {
 		c19prog(c, p)
 		errChannelNonBlocking(c, p, "G5")
 	}
+	// G9 (= E8, E4): in v2 a handler that holds an item when the channels are closed blocks in
+	// Release() for ever (nobody reads the release channel any more): termination therefore waits
+	// until every count is back at zero, and the counts change only by +1 per send and -1 per
+	// release received - they are never cleared or handed to a writer
+	r.Doc("G9", "(= C07 E8, E4) v2: the in-flight counts change only by +1 / -1 and the deferred wait leaves only at zero: no handler is left blocked in Release after termination", 8)
+	if pr, err := resolvePrio(c.V2); err == nil {
+		sub := &Ctx{V1: c.V1, V2: c.V2, Tier: c.Tier, R: NewReport("tmp", c.Tier)}
+		checkB9(sub, pr)
+		c07waitZero(sub, pr.sr)
+		subc := &Ctx{V1: c.V1, V2: c.V2, Tier: c.Tier, R: NewReport("tmp", c.Tier)}
+		checkB1(subc, pr)
+		for _, o := range subc.R.Obls {
+			if strings.Contains(o.Key, "#actual-content") {
+				sub.R.Check(o.OK, o.Rule, o.Key, o.Site, o.Detail, o.Detail)
+			}
+		}
+		for _, o := range sub.R.Obls {
+			r.Check(o.OK, "G9", o.Key, o.Site, o.Detail, o.Detail)
+		}
+	} else {
+		r.Fail("G9", "v2:priority", "-", err.Error())
+	}
 	// G8: "Stop/GracefulStop has returned" is a termination the property names: the method returns
 	// only after Break() of its breaker did (which waits for the goroutine's Complete())
 	r.Doc("G8", "(= C16 S8, v1) Stop()/GracefulStop() call Break() of the matching breaker synchronously and unconditionally: they return only after the discipline's goroutine completed", 5)
